@@ -291,3 +291,34 @@ def run_check(prop, fn, tier, level):
         traceback.print_exc()
         print(f'CHECKER-ERROR property={prop}: traceback above')
         return 3
+
+
+def exc_class_id(e, maxwords=7):
+    """refactoring- and input-stable class id of an escaped exception: its type plus the code-dependent part of its message. Dropped: the function that
+    happened to raise (extracting a helper must not create a new class), quoted data, numbers, run-time class names. Kept: the attribute name of an
+    AttributeError and the key of a KeyError when that key is a string literal of the raising source file (a key written in the code, not data)."""
+    import re as _re
+    import traceback as _tb
+    msg = str(e)
+    name = type(e).__name__
+    m = _re.search(r"object has no attribute '(\w+)'", msg)
+    if isinstance(e, AttributeError) and m:
+        return f'{name}.no-attribute-{m.group(1)}'
+    if isinstance(e, KeyError):
+        key = e.args[0] if e.args and isinstance(e.args[0], str) else None
+        if key and _re.fullmatch(r'\w+', key):
+            for fr in reversed(_tb.extract_tb(e.__traceback__)):
+                if '/mindsdb_sql/' in fr.filename or '/sly/' in fr.filename:
+                    try:
+                        src = open(fr.filename).read()
+                    except OSError:
+                        break
+                    if f"'{key}'" in src or f'"{key}"' in src:
+                        return f'{name}.{key}'
+                    break
+        return f'{name}.data-key'
+    msg = _re.sub(r"'[^']*'|\"[^\"]*\"", ' ', msg)
+    msg = _re.sub(r'0x[0-9a-fA-F]+|\b\d+\b', ' ', msg)
+    words = _re.findall(r'[A-Za-z_][A-Za-z_0-9]*', msg)
+    words = [w for i_, w in enumerate(words) if i_ == 0 or not (w[0].isupper() and any(c.islower() for c in w))][:maxwords]
+    return f'{name}.' + ('-'.join(words) if words else 'no-message')
